@@ -1087,6 +1087,28 @@ Section FromEmpty.
     intros k e F. destruct (I k e F) as (S & Hne & _). split; [exact S|]. split; [apply vsorted_NoDup; exact S | exact Hne].
   Qed.
 
+  (** every cache item is built with the rules of the path it is stored under, and every stored list is what THOSE rules
+      make of the headers of a request that is cached under that path *)
+  Lemma entries_of_their_path ops hs now :
+    exists l st' now',
+      runV hstate compute cache_on ims_on parse_ims sanitize_ok prime negotiate rules_of dbg ([], hs) now ops = Ok l /\
+      runV_state hstate compute cache_on ims_on parse_ims sanitize_ok prime negotiate rules_of dbg ([], hs) now ops = Ok (st', now') /\
+      forall k e, pc_find k (fst st') = Some e ->
+        vr_refs (ve_var e) = rules_of (kpath k) /\
+        forall f hc, In (f, hc) (vr_resps (ve_var e)) ->
+          map fst hc = map ru_name (rules_of (kpath k)) /\
+          exists q1 hs1 ok1, fst (fst (compute hs1 q1 ok1)) = f /\ cpath q1 = kpath k /\
+                             hc = headers_for_request (rules_of (kpath k)) (fst q1).
+  Proof.
+    destruct (runV_ok hstate compute cache_on ims_on parse_ims sanitize_ok prime negotiate rules_of dbg ops [] hs now
+                (InvV_nil hstate compute rules_of)) as (l & st' & now' & E1 & E2 & I & _).
+    exists l, st', now'. split; [exact E1|]. split; [exact E2|].
+    intros k e F. destruct (I k e F) as (_ & _ & Hrefs & Hall). split; [exact Hrefs|].
+    intros f hc Hin. destruct (Hall f hc Hin) as (q1 & (hs1 & ok1 & C1) & P1 & ->).
+    split; [apply headers_for_request_names|].
+    exists q1, hs1, ok1. split; [exact C1|]. split; [exact P1|]. apply lreq_headers_for.
+  Qed.
+
   Lemma computed_once_from_empty ops hs now :
     always_stored hstate compute ->
     Forall (op_ok ims_on sanitize_ok prime) ops -> Forall (gh_req prime) ops ->
